@@ -102,8 +102,9 @@ def gen_script(r, cid, tier):
                 L.append("load g " + fn)
                 L.append("dump g meta pidx coef")
                 changes += 1
-        elif k < 0.9:
-            # dynamic construction: candidates, deliveries in a shuffled order, finish
+        elif k < 0.9 and not (fam == "global" and spec["rule"] in gl.GLOBAL_NONNESTED):
+            # dynamic construction: candidates, deliveries in a shuffled order, finish (not for non-nested Global rules: the
+            # library does not reject them but corrupts memory already in the serial build, which is not a statement about OpenMP)
             L.append("begin g")
             if fam in ("localp", "wavelet"):
                 L.append("cand g surp %s %s %d" % (vlib.hexf(r.choice([0.0, 1e-3, 1e-1])), r.choice(gl.REFINE), r.choice([-1, 0])))
@@ -152,7 +153,8 @@ def run_scripts_safe(drv, lines, workdir, name="scripts", timeout=3000, env=None
     sp = os.path.join(workdir, name + ".txt")
     with open(sp, "w") as fh:
         fh.write("\n".join(lines) + "\n")
-    rc, so, se = vlib.run([drv, sp, workdir, str(case_timeout)], timeout=timeout, env=env)
+    # address-space limit (16 GB per process): a script that makes the library allocate without bound must not take the machine down
+    rc, so, se = vlib.run(["bash", "-c", 'ulimit -v 16000000; exec "$0" "$@"', drv, sp, workdir, str(case_timeout)], timeout=timeout, env=env)
     with open(os.path.join(workdir, name + ".out"), "w") as fh:
         fh.write(so)
     blocks, cur, cid = {}, None, None
